@@ -533,7 +533,7 @@ EXTRA_TEMPLATES = {
 
 # C10 templates not used here: edge-triggered inputs live in a list of their own (FunctionBlockDeclaration.edge_variables), so the
 # depth-first order of the library is not the source order by design
-K6_SKIP = {'edge_inputs'}
+K6_SKIP = {'edge_inputs', 'binary_nesting_right', 'binary_nesting_left', 'binary_nesting_right_q', 'binary_nesting_left_q'}      # the operator-nesting templates of C10 add nothing here (operands only; K1 covers operators)
 
 def _all_templates():
     from . import C10 as K10
@@ -675,4 +675,123 @@ def k8(ctx, kr):
     kr.functions = fn_paths(P, getattr(kr, '_enc', set()))[:100] + ['ironplc-parser::<TokenType as Logos>::lex (lifted)']
     kr.exhaustive = True
 
-KERNELS = [k1, k4, k5, k6, k7, k8]
+# ---------------------------------------------------------------------------------------------- K9 what is written differently is parsed differently
+def _canon(M, v, seen=None):
+    """structure of a library value without positions (SourceSpan) and without the original spelling of identifiers"""
+    if isinstance(v, Ref): return _canon(M, M.get(v.cell, v.path))
+    if isinstance(v, Agg):
+        nm = v.name.split('::')[-1].split('<')[0]
+        if nm == 'SourceSpan': return None
+        if nm == 'Id' and len(v.f) >= 2 and isinstance(v.f[1], Str): return ('Id', v.f[1].conc())
+        return (nm,) + tuple(_canon(M, x) for x in v.f)
+    if isinstance(v, EnumV): return ('E', v.name.split('::')[-1], v.disc if not is_sym(v.disc) else '?') + tuple(_canon(M, x) for x in v.f)
+    if isinstance(v, VecV): return ('V',) + tuple(_canon(M, x) for x in v.items)
+    if isinstance(v, Str): return ('S', v.conc())
+    if isinstance(v, (int, bool, float)) or v is None: return v
+    if is_sym(v): return ('sym', str(v))
+    return ('?', repr(v)[:40])
+
+# alternatives of one selector that denote the same program by the language definition (not by the implementation): a sign `+` on a literal, the
+# two spellings of a type keyword, ...  (template, selector index) -> groups of alternative texts that may parse alike
+SAME_MEANING = {
+    ('literal_init', 0): [['1', '+1']],
+}
+DISTINCT_TEMPLATES = {
+    'sfc_action_qualifiers': ['FUNCTION_BLOCK fb\nVAR\n  done : BOOL;\nEND_VAR\nINITIAL_STEP Start:\n  act(', ('alt', ['N', 'R', 'S', 'P', 'P0', 'P1', 'L, T#1s', 'D, T#1s', 'SD, T#1s', 'DS, T#1s', 'SL, T#1s', 'L, T#2s', 'N, done', 'DS, T#1s, done']),
+                              ');\nEND_STEP\nSTEP Work:\nEND_STEP\nTRANSITION FROM Start TO Work\n  := done;\nEND_TRANSITION\nACTION act:\n  done := TRUE;\nEND_ACTION\nEND_FUNCTION_BLOCK\n'],
+    'var_sections': ['FUNCTION_BLOCK fb\n', ('alt', ['VAR', 'VAR_INPUT', 'VAR_OUTPUT', 'VAR_IN_OUT', 'VAR_EXTERNAL', 'VAR_TEMP']), ('alt', ['', ' RETAIN', ' CONSTANT', ' NON_RETAIN']), '\n  x : ', ('alt', ['INT', 'DINT', 'BOOL', 'REAL', 'TIME', 'mytype']), ('alt', ['', ' := 1', ' := 2']), ';\nEND_VAR\nEND_FUNCTION_BLOCK\n'],
+    'type_kinds': ['TYPE\n  t : ', ('alt', ['INT', 'INT := 1', 'INT(1..2)', 'INT(1..3)', 'INT(2..3)', '(a, b)', '(a, c)', '(b, a)', '(a, b) := a', '(a, b) := b', 'ARRAY[1..2] OF INT', 'ARRAY[1..3] OF INT', 'ARRAY[1..2, 1..2] OF INT', 'ARRAY[1..2] OF BOOL',
+                                           'STRING', 'WSTRING', 'STRING[5]', 'STRING[6]', 'other', 'STRUCT\n    m : INT;\n  END_STRUCT', 'STRUCT\n    m : BOOL;\n  END_STRUCT', 'STRUCT\n    n : INT;\n  END_STRUCT', 'STRUCT\n    m : INT;\n    n : INT;\n  END_STRUCT']), ';\nEND_TYPE\n'],
+    'statements': ['FUNCTION_BLOCK fb\nVAR\n  x : INT;\n  y : INT;\n  b : BOOL;\nEND_VAR\n  ', ('alt', ['x := y;', 'y := x;', 'x := y + 1;', 'x := y - 1;', 'IF b THEN\n    x := 1;\n  END_IF;', 'IF b THEN\n    x := 1;\n  ELSE\n    x := 1;\n  END_IF;', 'IF b THEN\n    x := 1;\n  ELSIF b THEN\n    x := 1;\n  END_IF;',
+                    'WHILE b DO\n    x := 1;\n  END_WHILE;', 'REPEAT\n    x := 1;\n  UNTIL b\n  END_REPEAT;', 'FOR x := 1 TO 2 DO\n    y := 1;\n  END_FOR;', 'FOR x := 1 TO 2 BY 1 DO\n    y := 1;\n  END_FOR;', 'FOR x := 1 TO 3 DO\n    y := 1;\n  END_FOR;',
+                    'CASE x OF\n    1:\n      y := 1;\n  END_CASE;', 'CASE x OF\n    2:\n      y := 1;\n  END_CASE;', 'CASE x OF\n    1, 2:\n      y := 1;\n  END_CASE;', 'CASE x OF\n    1..2:\n      y := 1;\n  END_CASE;', 'CASE x OF\n    1:\n      y := 1;\n  ELSE\n    y := 1;\n  END_CASE;',
+                    'RETURN;', 'EXIT;', ';']), '\nEND_FUNCTION_BLOCK\n'],
+    'literal_kinds': ['FUNCTION_BLOCK fb\nVAR\n  v : ', ('alt', ['INT := 1', 'INT := 2', 'INT := -1', 'INT := 16#1F', 'INT := 16#10', 'INT := 2#101', 'INT := 2#110', 'INT := 8#17', 'INT := 8#7', 'INT := INT#1', 'INT := DINT#1', 'REAL := 1.0', 'REAL := 1.5', 'REAL := 1.0E1', 'BOOL := TRUE', 'BOOL := FALSE',
+                                                                    'TIME := T#1s', 'TIME := T#2s', 'TIME := T#1ms', 'TIME := T#1m', 'TIME := T#1h', 'TIME := T#1d', 'TIME := T#-1s', 'DATE := D#2020-01-01', 'DATE := D#2020-01-02', 'DATE := D#2020-02-01', 'DATE := D#2021-01-01',
+                                                                    'TOD := TOD#01:02:03', 'TOD := TOD#01:02:04', 'TOD := TOD#01:03:03', 'TOD := TOD#02:02:03', 'DT := DT#2020-01-01-01:02:03', 'DT := DT#2020-01-02-01:02:03', "STRING := 'a'", "STRING := 'b'", "STRING := 'ab'", 'WSTRING := "a"',
+                                                                    'BYTE := BYTE#1', 'WORD := WORD#1', 'BYTE := BYTE#16#FF']), ';\nEND_VAR\nEND_FUNCTION_BLOCK\n'],
+    'located_and_access': ['PROGRAM p\nVAR\n  x ', ('alt', ['AT %IX1', 'AT %IX2', 'AT %QX1', 'AT %MX1', 'AT %IW1', 'AT %IB1', 'AT %ID1', 'AT %IL1', 'AT %IX1.2', 'AT %IX1.3', 'AT %I1', 'AT %I*']), ' : BOOL;\nEND_VAR\n',
+                           ('opt', 'VAR_ACCESS\n  ac : r.p.x : INT READ_WRITE;\nEND_VAR\n'), ('opt', 'VAR_ACCESS\n  ac : r.p.x : INT READ_ONLY;\nEND_VAR\n'), 'END_PROGRAM\n'],
+    'configuration_parts': ['CONFIGURATION c\nRESOURCE r ON plc\n  TASK t(', ('alt', ['INTERVAL := T#1s, PRIORITY := 1', 'INTERVAL := T#2s, PRIORITY := 1', 'INTERVAL := T#1s, PRIORITY := 2', 'PRIORITY := 1', 'SINGLE := trig, PRIORITY := 1']), ');\n  PROGRAM ',
+                            ('alt', ['', 'RETAIN ', 'NON_RETAIN ']), 'i ', ('alt', ['WITH t ', '']), ': p', ('alt', ['', '(a := b)', '(a := c)', '(a => b)', '(a := b, c => d)']), ';\nEND_RESOURCE\nEND_CONFIGURATION\n'],
+}
+
+def _k9_job(job):
+    name, prefixes = job
+    from . import C10 as K10, tplcommon as TP
+    ctx = _CTX; part = Part(); part.libs = {}; part.tname = name; tpl = _k9_templates()[name]
+    P = ctx.program()
+    k_parse = P.find_fn('ironplc-parser', 'parse_program'); k_opt = TP.parse_opts(P)
+    st = {}
+    M = Machine(P, stubs=K10.dyn_lexer_stubs(ctx, {}), max_steps=400_000_000)
+    def entry(M):
+        choice, texts, text = TP.choose_shape(M, tpl); st['choice'] = choice; st['src'] = text
+        fid = Ref(Cell(Agg('FileId', [Str('f.st')])))
+        opts = Ref(Cell(M.call_fn(k_opt[0], []) if k_opt else Agg('ParseOptions', [False])))
+        r1 = M.call_fn(k_parse, [Ref(Cell(Str(text))), fid, opts])
+        return None if r1.disc != 0 else _canon(M, r1.f[0])
+    def on_path(M, pr):
+        part.paths += 1
+        if pr.inconclusive: part.inconc('%s: %s' % (name, pr.inconclusive)); return
+        if pr.panic: part.inconc('%s: panic (C04) %s' % (name, pr.panic.msg[:50])); return
+        if pr.result is None: return
+        part.nontrivial += 1
+        part.libs[st['choice']] = (pr.result, st['src'])
+    M.explore(entry, on_path, prefixes=prefixes)
+    part.queries += M.stats['smt']; part.encoded = set(M.encoded); part.models = set(M.models_used)
+    return part
+
+def _k9_templates():
+    from . import C10 as K10
+    d = dict(DISTINCT_TEMPLATES)
+    for k in ('sfc_transition', 'edge_inputs', 'fb_call', 'function_call', 'assignment_expr', 'assignment_target', 'case_statement', 'literal_init', 'configuration_globals', 'string_type', 'subrange_type', 'array_type', 'enum_type', 'struct_type'):
+        if k in K10.TEMPLATES: d[k] = K10.TEMPLATES[k]
+    return d
+
+@replay_factory('parse_distinct')
+def _replay_parse_distinct(a, b):
+    def rp(ctx):
+        r = ctx.replay({'cmd': 'parse_eq', 'a': a, 'b': b})
+        if 'panic' in r: return None, r
+        if not (r.get('a_ok') and r.get('b_ok')): return None, r
+        return bool(r.get('equal')), {'a': a[-200:], 'b': b[-200:], 'libraries_equal': r.get('equal')}
+    return rp
+
+@kernel('K9 parser.distinct_sources_distinct_libraries')
+def k9(ctx, kr):
+    global _CTX
+    _CTX = ctx
+    from . import C10 as K10, tplcommon as TP
+    T = _k9_templates()
+    kr.bounds = ('%d source templates whose alternatives denote different programs (%s): parse_program on the MIR for every shape; two shapes that differ in exactly one selector must give different libraries '
+                 '(positions and the original spelling of identifiers ignored; alternatives with the same meaning by the language definition are listed in SAME_MEANING)' % (len(T), ', '.join(T)))
+    libs = {n: {} for n in T}
+    for part in par_map(_k9_job, TP.jobs_for(T)):
+        libs[part.tname].update(part.libs); merge_part(kr, part)
+    npairs = 0
+    for n, tpl in T.items():
+        segs = K10._selectors(tpl); L = libs[n]
+        for c1, (l1, s1) in L.items():
+            for i in range(len(c1)):
+                for v in range(c1[i] + 1, K10._shapes(tpl)[i]):
+                    c2 = c1[:i] + (v,) + c1[i + 1:]
+                    if c2 not in L: continue
+                    npairs += 1
+                    l2, s2 = L[c2]
+                    if l1 != l2: continue
+                    t1 = (segs[i][1] if c1[i] else '') if segs[i][0] == 'opt' else segs[i][1][c1[i]]
+                    t2 = (segs[i][1] if c2[i] else '') if segs[i][0] == 'opt' else segs[i][1][c2[i]]
+                    if any(t1 in g and t2 in g for g in SAME_MEANING.get((n, i), [])): continue
+                    role = 'C01/K9/%s/%s=%s' % (n, re.sub(r'[^A-Za-z0-9#.<>=:*+-]+', '_', t1).strip('_')[:20] or 'none', re.sub(r'[^A-Za-z0-9#.<>=:*+-]+', '_', t2).strip('_')[:20] or 'none')
+                    if any(f.role == role for f in kr.findings): continue
+                    kr.findings.append(Finding(role, 'template %s: the sources that differ only in %r vs %r parse to the same library: what was written is not what the library says' % (n, t1, t2), {'a': s1, 'b': s2}, replay=_replay_parse_distinct(s1, s2)))
+    kr.notes.append('%d pairs of shapes compared' % npairs)
+    if len(kr.validate) < 1 and libs.get('statements'):
+        ks = sorted(libs['statements'])[:2]
+        if len(ks) == 2: kr.validate.append(('parse_distinct', (libs['statements'][ks[0]][1], libs['statements'][ks[1]][1])))
+    P = ctx.program()
+    kr.functions = fn_paths(P, getattr(kr, '_enc', set()))[:150] + ['ironplc-parser::<TokenType as Logos>::lex (lifted)']
+    kr.exhaustive = True
+    kr.outside = ['constructs and alternatives not in the templates; that the library is the *right* one (K1-K8 for names, kinds, nesting, precedence, literals)']
+
+KERNELS = [k1, k4, k5, k6, k7, k8, k9]
